@@ -5,3 +5,4 @@ pub mod lines;
 pub mod identity;
 pub mod message;
 pub mod simple;
+pub mod commit;
